@@ -36,6 +36,7 @@ type execCtx struct {
 	fkChild  []fkChildCheck
 	fkParent []fkParentCheck
 	touched  map[*slot]bool
+	changed  map[string]bool
 }
 
 type result struct {
